@@ -1,2 +1,10 @@
 BATCH = 1
 OTHER = 0
+
+# module-level constants spelled with double underscores (a version, an author, a seed) are ordinary variables
+__version__ = 1
+__SEED__ = "s"
+
+
+def read_dunders():
+    return ("dunders", __version__, __SEED__)
